@@ -113,6 +113,7 @@ struct ThetaSk: Sk {
   }
   std::string obs(bool) const override { if (u) return obs_of(*u); if (c) return obs_of(*c); return obs_of(*w); }
   int n_variants() const override { return 5; }
+  Sk* image_source(int v) const override { ThetaSk* n = shell(); n->c.reset(new C(as_compact(v != 2))); return n; }
   bool has_stream_reader(int v) const override { return v < 3; }
   Bytes ser(int v, unsigned h) const override {
     C cc = as_compact(v != 2);
@@ -209,6 +210,7 @@ struct TupleSk: Sk {
   }
   std::string obs(bool) const override { return u ? obs_of(*u) : obs_of(*c); }
   int n_variants() const override { return 2; }
+  Sk* image_source(int v) const override { TupleSk* n = shell(); n->c.reset(new C(as_compact(v == 0))); return n; }
   Bytes ser(int v, unsigned h) const override { return to_bytes(as_compact(v == 0).serialize(h, ds::serde<double>())); }
   void ser_os(int v, std::ostream& os) const override { as_compact(v == 0).serialize(os, ds::serde<double>()); }
   Sk* de(int, const uint8_t* p_, size_t n) const override { std::unique_ptr<TupleSk> s(shell()); s->c.reset(new C(C::deserialize(p_, n, seed, ds::serde<double>(), A(ARENA)))); return s.release(); }
@@ -295,6 +297,7 @@ struct AodSk: Sk {
   }
   std::string obs(bool) const override { return u ? obs_of(*u, u->get_num_values()) : obs_of(*c, c->get_num_values()); }
   int n_variants() const override { return 2; }
+  Sk* image_source(int v) const override { AodSk* n = shell(); n->c.reset(new C(as_compact(v == 0))); return n; }
   Bytes ser(int v, unsigned h) const override { return to_bytes(as_compact(v == 0).serialize(h)); }
   void ser_os(int v, std::ostream& os) const override { as_compact(v == 0).serialize(os); }
   Sk* de(int, const uint8_t* p_, size_t n) const override { std::unique_ptr<AodSk> s(shell()); s->c.reset(new C(C::deserialize(p_, n, seed, A(ARENA)))); s->nv = s->c->get_num_values(); return s.release(); }
@@ -339,11 +342,13 @@ struct HllSk: Sk {
   void merge(const Sk& o) override { unite(*static_cast<const HllSk&>(o).s, false); }
   void merge_move(Sk& o) override { unite(*static_cast<HllSk&>(o).s, true); }
   void reset() override { s->reset(); }
-  std::string obs(bool) const override {
+  // logical_only: without the HIP estimate and its bounds, which legitimately depend on the order in which coupons were presented
+  // (a restored coupon table replays its coupons in another order when it is merged)
+  std::string obs(bool logical_only) const override {
     std::string o = "lgk=" + std::to_string(s->get_lg_config_k()) + " type=" + std::to_string(s->get_target_type()) + " empty=" + std::to_string(s->is_empty()) +
-      " est=" + d2s(s->get_estimate()) + " comp=" + d2s(s->get_composite_estimate()) + " cbytes=" + std::to_string(s->get_compact_serialization_bytes()) +
+      " comp=" + d2s(s->get_composite_estimate()) + " cbytes=" + std::to_string(s->get_compact_serialization_bytes()) +
       " ubytes=" + std::to_string(s->get_updatable_serialization_bytes());
-    for (int i = 1; i <= 3; i++) o += " lb=" + d2s(s->get_lower_bound(i)) + " ub=" + d2s(s->get_upper_bound(i));
+    if (!logical_only) { o += " est=" + d2s(s->get_estimate()); for (int i = 1; i <= 3; i++) o += " lb=" + d2s(s->get_lower_bound(i)) + " ub=" + d2s(s->get_upper_bound(i)); }
     // logical content: the HLL_8 updatable image of a copy (mode byte, coupons or registers), sorted where it is a table
     S h8(*s, ds::HLL_8);
     auto img = h8.serialize_updatable();
@@ -367,6 +372,16 @@ struct HllSk: Sk {
   Sk* de(int, const uint8_t* p, size_t n) const override { return new HllSk(S::deserialize(p, n, A(ARENA))); }
   Sk* de_is(int, std::istream& is) const override { return new HllSk(S::deserialize(is, A(ARENA))); }
   size_t advertised_size(int v) const override { return v == 0 ? s->get_compact_serialization_bytes() : s->get_updatable_serialization_bytes(); }
+  // layout (HllUtil.hpp / *-internal.hpp comments): byte 1 serial version, byte 3 lg_k, byte 7 low 2 bits mode (0 list, 1 set, 2 hll), bits 2-3 type;
+  // list: coupons from 8; set: coupons from 12; hll: registers from 40, HLL_4 aux pairs after 2^(lg_k-1) register bytes
+  static void sort_u32(Bytes& b, size_t from) { std::vector<uint32_t> v; for (size_t i = from; i + 4 <= b.size(); i += 4) v.push_back(sim::load32le(b.data() + i)); std::sort(v.begin(), v.end()); for (size_t i = 0; i < v.size(); i++) std::memcpy(b.data() + from + 4 * i, &v[i], 4); }
+  Bytes canonical(int, const Bytes& img) const override {
+    Bytes b = img; if (b.size() < 8) return b;
+    const int mode = b[7] & 3, type = (b[7] >> 2) & 3;
+    if (mode == 0) sort_u32(b, 8); else if (mode == 1) sort_u32(b, 12);
+    else if (mode == 2 && type == 0) { size_t aux = 40 + (static_cast<size_t>(1) << (b[3] - 1)); if (aux < b.size()) sort_u32(b, aux); }
+    return b;
+  }
   size_t max_size(int) const override { return S::get_max_updatable_serialization_bytes(s->get_lg_config_k(), s->get_target_type()); }
 };
 struct HllFamily: Family {
